@@ -164,4 +164,48 @@ def PAFinder.ok (r : PAFinder) : Bool :=
   && decide (0 < r.P.toRat - r.var)
   && decide (r.C.toRat * (4000 - r.Y0.toRat) + 2 ≤ r.kMax) && decide (r.C.toRat * (r.Y0.toRat + 2000) + 2 ≤ r.kMax)
 
+/-! ### The series as a polynomial in the time variable: coefficient bounds
+
+`e.coefs = [b0, b1, b2, ...]`: `b_i` is the sum of the absolute values of all coefficients of `x^i` in `e`, with
+every `sin`/`cos` counted as 1 (literals by their absolute value).  So `|e| ≤ b0 + b1 |x| + b2 x² + ...` and the
+length of the list bounds the degree. -/
+
+def padd : List Rat → List Rat → List Rat
+  | [], ys => ys
+  | xs, [] => xs
+  | x :: xs, y :: ys => (x + y) :: padd xs ys
+
+def pmul : List Rat → List Rat → List Rat
+  | [], _ => []
+  | x :: xs, ys => padd (ys.map (x * ·)) (0 :: pmul xs ys)
+
+def FExpr.coefs : FExpr → List Rat
+  | .lit c => [qabs c.toRat]
+  | .x => [0, 1]
+  | .sin _ => [1]
+  | .cos _ => [1]
+  | .neg a => a.coefs
+  | .add a b => padd a.coefs b.coefs
+  | .sub a b => padd a.coefs b.coefs
+  | .mul a b => pmul a.coefs b.coefs
+
+/-- Are all multipliers `j` of `sin(j * m)` / `cos(j * m)` whole numbers (so that a whole turn added to `m` is invisible)? -/
+def TrigArg.integral : TrigArg → Bool
+  | .jm j => decide (j.toRat.den = 1)
+  | _ => true
+
+def FExpr.integral : FExpr → Bool
+  | .lit _ => true
+  | .x => true
+  | .sin a => a.integral
+  | .cos a => a.integral
+  | .neg a => a.integral
+  | .add a b => a.integral && b.integral
+  | .sub a b => a.integral && b.integral
+  | .mul a b => a.integral && b.integral
+
+/-- Centre and radius of the values of the reported elongation angle (before `Angle(...).to_positive()`), degrees. -/
+def Finder.elonMid (r : Finder) : Rat := match r.elon with | none => 0 | some e => e.mid 0
+def Finder.elonRad (r : Finder) : Rat := match r.elon with | none => 0 | some e => e.rad 0 tMax
+
 end Pymeeus.Finders
